@@ -2103,6 +2103,11 @@ public:
             CRAB_ERROR(domain_name() + "::rename assumes that ", new_v,
                        " does not exist");
           }
+          // The stale vertex of new_v is released: otherwise the
+          // insertion below is a no-op and new_v keeps pointing at it.
+          g.forget(dim);
+          rev_map[dim] = boost::none;
+          vert_map.erase(it);
         }
       }
 
